@@ -25,10 +25,16 @@ def parseCase (line : String) : Option (Ty × Kind × Val) :=
     | _, _ => none
   | _ => none
 
+/-- The model's answer: the result of evaluating the extracted table.  If that result itself contradicts the
+    Spec (`specOK`) — a guard of the table is wrong — the line is marked, so that it can never agree with the
+    implementation's observation and the case goes to `judge`, which decides from the observation of the real
+    code alone. -/
 def handle (line : String) : String :=
   match parseCase line with
   | none => "bad-case"
-  | some (t, k, x) => showRes t (convGo t k x)
+  | some (t, k, x) =>
+    let r := convGo t k x
+    if specOK t k x r then showRes t r else "table-contradicts-spec " ++ showRes t r
 
 /-- the observation of the real code, read back as a result -/
 def parseObs (t : Ty) (obs : String) : Option Res :=
